@@ -274,6 +274,9 @@ def run(ctx):
             res.site(key, True, {"verdict": "ok" if ok else "VIOLATION"})
             if not ok:
                 res.find(key, ef.loc(), "%s does not run %s on its argument with a fresh expansion stack" % (ef.name, impl.name), "-")
+    # reverse lookups: the expansion record contains an index iff its half-open range does (shared with C19)
+    from qv.props.c19 import range_contains_rule
+    range_contains_rule(db, res, ("defgate_sequence_expansion::DefGateSequenceExpansion",))
     res.count("sites", res.sites, floor=30)
     res.explanation = "Sibling agreement of the two expansion loops by effect skeleton, provenance of every field of the pushed source-map entries (origin expressions + dominance for read-before/after-write), and agreement of the two Program-level constructors."
     return res
